@@ -595,6 +595,9 @@ class Sequence:
                 int(ele), sequencedict["jump_target"]
             )
             new_instance.setSequencingGoto(int(ele), sequencedict["Go to"])
+        # carry over the remaining AWG settings (delays, filter compensations)
+        for key, val in awgspecs.items():
+            new_instance._awgspecs.setdefault(key, deepcopy(val))
         new_instance.setSR(SR)
         return new_instance
 
